@@ -38,6 +38,8 @@ def run(tier, seed):
     core.run_jobs(jobs)
     for j in jobs:
         res.absorb(j)
+    # E4: coverage-guided campaign on noise-free keys with explicit mask coefficients and the exact identity inside the target
+    core.run_fuzz(res, "fz_c08", 12 if q else 600, 2 if q else 6, seed, "C08")
     # unbiasedness over the complete sweep: sum of phase errors over all 2^32 values is -2^31 (ties up) or +2^31 (ties down)
     tot = {}
     for key, j in sweeps:
@@ -64,7 +66,7 @@ def run(tier, seed):
                 "{1,2,3,7,8,9,17,1024,2048}, target in 1..9 and {500,630}, noise-free and library-generated (noisy) keys, masks random / boundary-biased (digit boundaries +-2 after the "
                 "rounding offset, carry to the top, wrap, exact ties +-2), result mask in a guard-page buffer; oracle: phase difference == sum_i s_i (a_i - round_w(a_i)) - sum of the "
                 "measured errors of the rows (i,j,digit!=0), an exact identity; every row (i,j,h) of a library-generated key must itself encrypt h s_i base^-(j+1) within 9 alpha (+2 units) and the row noise variance must match alpha (z=6), so a wrong row message cannot hide in the measured errors. Real keys (layouts incl. basebit 1): >= %d samples with the exact identity plus z=6 tests of the residual mean/variance against their "
-                "expectation under uniform digits computed from the measured row errors. Non-trivial = boundary-biased mask or a dimension that is not a multiple of 8 (rapidcheck, hashed), "
+                "expectation under uniform digits computed from the measured row errors. E4: libFuzzer target fz_c08 (bytes -> digit layout, dimensions 1..9, explicit mask words; noise-free key, exact identity, traps on violation). Non-trivial = boundary-biased mask or a dimension that is not a multiple of 8 (rapidcheck, hashed), "
                 "or a value within 1 unit of a rounding boundary / the wrap (sweeps, by construction)." % ((QUICK if q else THOROUGH), nsamp))
     res.assumptions = ["row errors of library-generated keys are measured exactly with the secret keys before use",
                        "h=0 rows are the trivial zero sample, as generated by the library"]
